@@ -343,24 +343,31 @@ def run(ctx):
         cn = {v["idx"]: v["name"] for v in adtc["variants"]} if adtc else {}
 
         def context(b):
-            """(component variant, justify variant, other guards) dominating block b"""
+            """(component variant, justify variant, other guards) dominating block b — however the tests are spelled
+            (match / if let / matches! / == on the enum)"""
             comp = just = None
             other = []
+            used = set()
+            for adt, var, holds, subj, gd in prim.variant_facts(pp, b, prog):
+                if adt.endswith("printf::FormatComponent") and holds:
+                    comp = var
+                    used.add(gd["bb"])
+                elif adt.endswith("printf::Justify"):
+                    if holds:
+                        just = var
+                    elif len(jn) == 2:
+                        just = [v for v in jn.values() if v != var][0]
+                    used.add(gd["bb"])
+                elif adt.startswith("std::result::Result") and any(c.a["callee"] == P + "format_directive" for c in subj.call_nodes()):
+                    used.add(gd["bb"])
+                elif adt.startswith("std::option::Option") and any(c.a["name"] == "next" for c in subj.call_nodes()):
+                    used.add(gd["bb"])
             for gd in prim.dominating_guards(pp, b):
-                ty = prim.discr_type_of_switch(pp, gd["bb"]) or ""
-                one = len(gd["labels"]) == 1 and gd["labels"][0] != "else"
-                if ty.endswith("printf::FormatComponent") and one:
-                    comp = cn.get(gd["labels"][0])
-                elif ty.endswith("printf::Justify") and one:
-                    just = jn.get(gd["labels"][0])
-                elif gd["bool"] is not None and gd["pred"].fmt().startswith("phi("):
+                if gd["bb"] in used:
+                    continue
+                if gd["bool"] is not None and gd["pred"].fmt().startswith("phi("):
                     continue        # the bool temporary of a `matches!`, decided by the enum switch above it
-                elif ty.startswith("std::result::Result") and any(c.a["callee"] == P + "format_directive" for c in gd["pred"].call_nodes()):
-                    continue
-                elif ty.startswith("std::option::Option") and any(c.a["name"] == "next" for c in gd["pred"].call_nodes()):
-                    continue
-                else:
-                    other.append(prim.guards_fmt([gd])[:120])
+                other.append(prim.guards_fmt([gd])[:120])
             return comp, just, other
 
         seen = {}
@@ -417,7 +424,7 @@ def run(ctx):
                    fn=pp, where=prim.site(pp, b), how="dominating guards + dominance + provenance slice")
         ctx.ob("R3", "padding-both-sides", sorted(sides, key=str) == ["Left", "Right"] and all(len(v) == 1 for v in sides.values()), "padding calls by justification: %s; oracle exactly one for Left and one for Right" % sides, fn=pp, how="dominating guards")
         for cl in prog.closures_of(pp):
-            o = prim.simplify(prim.expand_single_def_vars(cl, prim.origin_of_local(cl, 0))).strip()
+            o = prim.simplify(prim.resolve_upvars(prog, cl, prim.expand_single_def_vars(cl, prim.origin_of_local(cl, 0)))).strip()
             names = [c.a["name"] for c in o.call_nodes()]
             ok = o.k == "call" and o.a["name"] == "saturating_sub" and len(o.kids) == 2
             if ok:
